@@ -15,6 +15,7 @@ fn worlds(thorough: bool) -> Vec<Built> {
     let roots = stdworlds::std_roots();
     let mut v = vec![stdworlds::build_with_roots(&stdworlds::std_spec("c06-std-3000-300", [Enc::Dynamic, Enc::Fixed, Enc::Fixed], 3000, 300), &roots[1..])];
     v.push(stdworlds::build_with_roots(&stdworlds::std_spec("c06-std-1-1", [Enc::Fixed, Enc::Dynamic, Enc::Dynamic], 1, 1), &roots[1..3]));
+    v.push(stdworlds::build_with_roots(&stdworlds::chain_spec("c06-dust", [Enc::Dynamic, Enc::Fixed, Enc::Dynamic], 3000, 2500), &stdworlds::dust_roots()[1..]));
     if thorough {
         v.push(stdworlds::build_with_roots(&stdworlds::std_spec("c06-std-60000-2500", [Enc::Fixed, Enc::Fixed, Enc::Dynamic], 60000, 2500), &roots[1..]));
         v.push(stdworlds::build_with_roots(&stdworlds::std_spec("c06-std-0-0", [Enc::Dynamic, Enc::Dynamic, Enc::Fixed], 0, 0), &roots[1..3]));
@@ -27,7 +28,15 @@ fn worlds(thorough: bool) -> Vec<Built> {
     v
 }
 
-fn alphabet(_b: &Built) -> Vec<Op> {
+fn alphabet(b: &Built) -> Vec<Op> {
+    if b.name.contains("dust") {
+        // every amount is a few units: fees are dominated by the ceil, protocol cuts by the floor, growth by L of a few units
+        let mut a = stdworlds::dust_alphabet(b.w.positions.len() as u8);
+        a.push(Op::SetFeeRate(60_000));
+        a.push(Op::SetProtocolFeeRate(2_500));
+        a.push(Op::SetProtocolFeeRate(1));
+        return a;
+    }
     let mut a = vec![];
     for a_to_b in [true, false] {
         a.push(Op::Swap { a_to_b, exact_in: true, amount: 1_000_000, lim: Lim::None, v2: a_to_b });
